@@ -18,6 +18,31 @@ CFG = ["instance_approximator", "instance_matcher", "edge_case_handler", "instan
 ARRAY_LABELS = {"PRED": [1, 2, 3, 5], "REF": [1, 3, 4, 5]}
 
 
+def _unbundle(prog, callee, kw: dict) -> dict:
+    """A call that hands the callee one object bundling several of its parameters is read as the call with those
+    parameters: the mapping field -> parameter is taken from the callee's own code, which builds the same bundle from
+    the individual parameters when the bundle is not given (`if bundle is None: bundle = Bundle(field=param, ...)`)."""
+    for pname, val in list(kw.items()):
+        if not (isinstance(val, Obj) and pname in {p.name for p in callee.call_params}):
+            continue
+        mapping = None
+        for st in ast.walk(callee.node):
+            if isinstance(st, ast.If) and isinstance(st.test, ast.Compare) and isinstance(st.test.left, ast.Name) and st.test.left.id == pname and len(st.test.ops) == 1 and isinstance(st.test.ops[0], ast.Is) and isinstance(st.test.comparators[0], ast.Constant) and st.test.comparators[0].value is None:
+                for a in st.body:
+                    if isinstance(a, ast.Assign) and len(a.targets) == 1 and isinstance(a.targets[0], ast.Name) and a.targets[0].id == pname and isinstance(a.value, ast.Call) and not a.value.args:
+                        k_ = prog.resolve_class_expr(callee.module, a.value.func) if isinstance(a.value.func, (ast.Name, ast.Attribute)) else None
+                        if k_ is val.cls and all(isinstance(x.value, ast.Name) for x in a.value.keywords if x.arg):
+                            mapping = {x.arg: x.value.id for x in a.value.keywords if x.arg}
+        if mapping is None:
+            continue
+        out = {k: v for k, v in kw.items() if k != pname}
+        for field_, param_ in mapping.items():
+            if field_ in val.attrs:
+                out[param_] = val.attrs[field_]  # "if given, the individual keywords are not looked at"
+        return out
+    return kw
+
+
 class LabelVec:
     """1-D array of the (concrete) label values of an abstract array, e.g. np.unique(arr)."""
 
@@ -104,6 +129,7 @@ class EvalInterp(ArrInterp):
             names = [p.name for p in self.prog.func("panoptica_evaluator:panoptic_evaluate").call_params]
             kw = dict(zip(names, args))
             kw.update(kwargs)
+            kw = _unbundle(self.prog, self.prog.func("panoptica_evaluator:panoptic_evaluate"), kw)
             r.pipeline_calls.append((kw, node))
             k = len(r.pipeline_calls)
             return (Obj(self.prog.cls("panoptica_result:PanopticaResult"), {"_tag": f"RESULT_{k}", "computation_time": None}), Sym(f"STEPS_{k}"))
